@@ -107,6 +107,8 @@ def run(ctx: Ctx, rep: Report) -> None:
     rep.rule("C09-R2", "the data returned derives from the message that was verified", floor=1)
     rep.rule("C09-R3", "exact 12-octet digest comparison over the message with zeroed digest; arguments bound correctly", floor=7)
     rep.rule("C09-R4", "a foreign user name raises before anything is accepted", floor=1)
+    rep.rule("C09-R7", "before a message is authenticated its lazily decoded PDU is not allowed to speak: an evaluation that may raise the PDU's error-status sits in a handler that turns it into a refusal", floor=1)
+    rep.rule("C09-R6", "a refused message always surfaces: no exception the USM raises is a subclass of one the walk loop swallows", floor=3)
     rep.rule("C09-R5", "every incoming v3 message is vetted by the USM instance of the message-processing model (never by a model the message names)", floor=2)
     rep.assumptions += [
         "HMAC-MD5-96 / HMAC-SHA-96 are unforgeable without the key (cryptographic strength is not analysed)",
@@ -235,6 +237,50 @@ def run(ctx: Ctx, rep: Report) -> None:
     outs = simulate(cfg, auth_env(ctx, proc, creds, [], set(), extra=user_env), expand=defs.expand)
     ok = bool(found) and bool(outs) and all(o.kind == "raise" for o in outs)
     rep.check(ok, "C09-R4", proc.site(), "a message whose user name differs from the credentials' raises on every path", f"user-name comparisons found: {len(found)}; outcomes: {outs}", key=f"{proc.key}|foreign-user-accepted")
+
+    # ---- R7 unauthenticated content cannot raise "its" error
+    from .c08 import forces_pdu
+    from .common import quietly_caught_classes
+
+    err_resp = ctx.u.cls("puresnmp.exc:ErrorResponse")
+    quiet = [q for q, _ in quietly_caught_classes(ctx)]
+    for vfn in {f.key: f for f, _, _ in verifiers}.values():
+        for node in own_nodes(vfn.node):
+            if not isinstance(node, ast.Call):
+                continue
+            forced = forces_pdu(ctx, vfn, node)
+            if not forced or any(isinstance(a, ast.Call) and forces_pdu(ctx, vfn, a) for a in ast.walk(node) if a is not node and isinstance(a, ast.Call)):
+                continue  # report the innermost forcing call only
+            guarded = False
+            detail = f"forces {forced[0]}"
+            for tr, part in enclosing_tries(node, vfn.node):
+                if part != "body":
+                    continue
+                for h in tr.handlers:
+                    types = [] if h.type is None else (h.type.elts if isinstance(h.type, ast.Tuple) else [h.type])
+                    catches = h.type is None or any(norm(t).split(".")[-1] in ("Exception", "BaseException") or (ctx.r.resolve_class(vfn.module, t) is not None and ctx.r.is_subclass(err_resp, ctx.r.resolve_class(vfn.module, t))) for t in types)
+                    if not catches:
+                        continue
+                    raised = [c for n in ast.walk(ast.Module(body=h.body, type_ignores=[])) if isinstance(n, ast.Raise) and n.exc is not None for c in (ctx.exc_classes(vfn, n.exc) or [])]
+                    guarded = handler_reraises(h) and bool(raised) and all(not ctx.r.is_subclass(c, err_resp) and not any(ctx.r.is_subclass(c, q) for q in quiet) for c in raised)
+                    detail += f"; handler at line {h.lineno} raises {[c.name for c in raised]}"
+                    break
+                if guarded:
+                    break
+            rep.check(guarded, "C09-R7", vfn.site(node), f"{vfn.qualname}: the error-status of a message that is not (yet) authenticated cannot surface as an agent error (a forged noSuchName would end a walk silently)", detail, key=f"{vfn.key}|unauthenticated-error-status")
+
+    # ---- R6 refusals are not swallowed further up
+    from .common import check_not_quietly_caught
+
+    usm_raised: List[ClassInfo] = []
+    for f in ctx.u.functions.values():
+        if f.module is usm.module:
+            for n in own_nodes(f.node):
+                if isinstance(n, ast.Raise) and n.exc is not None:
+                    for c in ctx.exc_classes(f, n.exc) or []:
+                        if c not in usm_raised:
+                            usm_raised.append(c)
+    check_not_quietly_caught(ctx, rep, "C09-R6", usm_raised, "raised by the user-based security model")
 
     # ---- R5 the model that vets the message
     from .common import check_incoming_model
